@@ -74,10 +74,10 @@ func hpTruth(evs []hpEvent) []int {
 	active := map[int]int{}
 	res := make([]int, 0, len(evs)+1)
 	cur := func() int {
-		m := -1
+		m, found := -1, false
 		for p, n := range active {
-			if n > 0 && (m == -1 || p < m) {
-				m = p
+			if n > 0 && (!found || p < m) {
+				m, found = p, true
 			}
 		}
 		return m
